@@ -762,21 +762,21 @@ theorem obj_close_erases (o : Obj) :
 
 /-- **obj_reads**: in whatever state an object is — not open, or open in any mode at any position, with anything
     cached — its whole-file readers answer from the path's current bytes: `content()` all of them, `firstBytes(n)`
-    the first `n`, `text()` the text of a fresh `TextFile`; `size()` is their number for an open object and for an
-    object with nothing cached; `lines()` of an object that is not open are the lines.
+    the first `n`, `text()` and `lines()` the text and the lines of a fresh `TextFile`; `size()` is their number for
+    an open object and for an object with nothing cached.
     (What is left out: `size()` of an object that is not open and cached a size earlier — known finding
-    stale-size-closed-object — and `lines()`/`read()` of an open object, which continue from its position.) -/
+    stale-size-closed-object — and `read()` of an open object, which continues from its position.) -/
 theorem obj_reads (d : Disk) (o : Obj) (c : Bytes) (h : d o.path = some c) :
     (c.length < 2147483648 → (o.content d).1 = c) ∧ (∀ n, (o.firstBytes d n).1 = c.take n) ∧
     (c.length < 2147483648 → (o.text d).1 = text c) ∧
     ((o.file.isSome ∨ o.info = .empty) → (o.size d).1 = c.length) ∧
-    (o.file = none → Spec.NulFree c → (o.lines d).1 = Spec.lines c) := by
+    (Spec.NulFree c → (o.lines d).1 = Spec.lines c) := by
   obtain ⟨p, t, f, info⟩ := o
   simp only at h
   have rb := read_back d p c h
   cases f with
   | some hd =>
-    refine ⟨fun hl => ?_, fun n => ?_, fun _ => ?_, fun _ => ?_, fun hn => by simp at hn⟩
+    refine ⟨fun hl => ?_, fun n => ?_, fun _ => ?_, fun _ => ?_, fun hz => by simpa [Obj.lines] using rb.2.2.2.1 hz⟩
     · simpa [Obj.content] using rb.1 hl
     · simpa [Obj.firstBytes] using rb.2.2.1 n
     · simpa [Obj.text] using rb.2.2.2.2
@@ -788,8 +788,8 @@ theorem obj_reads (d : Disk) (o : Obj) (c : Bytes) (h : d o.path = some c) :
     have hfb : ∀ (info : Cache) (n : Nat),
         (Obj.firstBytes d { path := p, isText := t, file := none, info := info } n).1 = c.take n := by
       intro info n
-      simp [Obj.firstBytes, Obj.lazyOpen, openH_read d p false c h, hread, smRead, fread]
-    refine ⟨fun _ => ?_, fun n => hfb info n, fun hlen => ?_, fun hc => ?_, fun _ hz => ?_⟩
+      simp [Obj.firstBytes, openH_read d p false c h, hread, smRead, fread]
+    refine ⟨fun _ => ?_, fun n => hfb info n, fun hlen => ?_, fun hc => ?_, fun hz => ?_⟩
     · simp only [Obj.content, hsz, Int.toNat_natCast]
       rw [hfb]; exact List.take_length
     · have hand : sizeAnd (c.length : Int) = c.length &&& sizeMask := by
@@ -797,7 +797,7 @@ theorem obj_reads (d : Disk) (o : Obj) (c : Bytes) (h : d o.path = some c) :
         have : ((c.length : Int) % 18446744073709551616).toNat = c.length := by omega
         rw [this]
       simp only [Obj.text, hsz]
-      simp [Obj.lazyOpen, openH_read d p true c h, hand, text]
+      simp [openH_read d p true c h, hand, text]
     · rcases hc with hc | hc
       · simp at hc
       · simp only at hc
@@ -805,7 +805,7 @@ theorem obj_reads (d : Disk) (o : Obj) (c : Bytes) (h : d o.path = some c) :
         rw [hsz]
     · have := lines_spec readLineChunk (by decide) c hz
       unfold lines at this
-      simp [Obj.lines, Obj.lazyOpen, openH_read d p true c h, this]
+      simp [Obj.lines, openH_read d p true c h, this]
 
 /-- **obj_after_close**: after `close()`, every object — whatever it cached, wherever its handle stood — answers
     from the path's current bytes: `size()` is their number, `content()` all of them, `firstBytes(n)` the first
@@ -816,7 +816,48 @@ theorem obj_after_close (d : Disk) (o : Obj) (c : Bytes) (h : d o.path = some c)
     (Spec.NulFree c → (o.close.lines d).1 = Spec.lines c) ∧
     (c.length < 2147483648 → (o.close.text d).1 = text c) := by
   have r := obj_reads d o.close c h
-  exact ⟨r.2.2.2.1 (Or.inr rfl), r.1, r.2.1, r.2.2.2.2 rfl, r.2.2.1⟩
+  exact ⟨r.2.2.2.1 (Or.inr rfl), r.1, r.2.1, r.2.2.2.2, r.2.2.1⟩
+
+/-- **obj_readers_keep_state**: the whole-file readers leave the object's handle as it was — an object that was not
+    open is not open afterwards (so it can still open itself for writing: repair 630b40d), an open one keeps its
+    handle, mode and position -/
+theorem obj_readers_keep_state (d : Disk) (o : Obj) (n : Nat) :
+    (o.content d).2.file = o.file ∧ (o.firstBytes d n).2.file = o.file ∧ (o.text d).2.file = o.file ∧
+    (o.lines d).2.file = o.file := by
+  obtain ⟨p, t, f, info⟩ := o
+  cases f with
+  | some hd => simp [Obj.content, Obj.firstBytes, Obj.text, Obj.lines]
+  | none =>
+    refine ⟨?_, ?_, ?_, ?_⟩
+    · simp only [Obj.content, Obj.firstBytes, Obj.size, Obj.ensureInfo]
+      split <;> simp [Obj.close]
+    · simp only [Obj.firstBytes]; split <;> simp [Obj.close]
+    · simp only [Obj.text, Obj.size, Obj.ensureInfo]; split <;> simp [Obj.close]
+    · simp only [Obj.lines]; split <;> simp [Obj.close]
+
+/-- **obj_read_then_append**: `text()` and `lines()` of a `TextFile` object that was never opened, then `append(s)` on
+    the same object: the append succeeds and the file holds the old bytes followed by `s` -/
+theorem obj_read_then_append (d : Disk) (p : Nat) (c bs : Bytes) (h : d p = some c) :
+    let o1 := ((Obj.new p true).text d).2
+    let o2 := (o1.lines d).2
+    (o2.twrite d .append bs).1 = true ∧ (o2.twrite d .append bs).2.1 p = some (c ++ bs) := by
+  intro o1 o2
+  have k1 := (obj_readers_keep_state d (Obj.new p true) 0).2.2.1
+  have k2 := (obj_readers_keep_state d o1 0).2.2.2
+  have hf : o2.file = none := by rw [show o2.file = o1.file from k2, show o1.file = _ from k1]; rfl
+  have hp : o2.path = p ∧ o2.isText = true := by
+    simp only [o2, o1, Obj.lines, Obj.text, Obj.new, Obj.size, Obj.ensureInfo, statFetch, h, openH_read d p true c h, Obj.close]
+    simp
+  obtain ⟨hd, d', hop, hpath, hsm, hd', -⟩ := openH_append d p true
+  have hw := (writeAll_append [bs] d' hd _ (by rw [hsm]; rfl) (by rw [hsm]; rfl) (by rw [hpath]; exact hd')).1
+  simp only [writeAll, List.flatten_cons, List.flatten_nil, List.append_nil, hpath, h, Option.getD_some] at hw
+  obtain ⟨op, ot, ofl, oi⟩ := o2
+  simp only at hf hp
+  obtain ⟨rfl, rfl⟩ := hp
+  subst hf
+  have hfw : (fwrite d' hd bs).1 = bs.length := by simp [fwrite, hsm, smAppend]
+  simp only [Obj.twrite, Obj.lazyOpen, hop, hfw]
+  exact ⟨by simp, hw⟩
 
 /-- `open()` on an object that is already open closes it first: the same as `close()` followed by `open()` — the old
     handle is not leaked, so nothing written through it can stay behind (repair a48095a) -/
@@ -1058,5 +1099,40 @@ theorem le32_spec (n : Nat) :
   · rfl
   · simp only [le32, List.foldr_cons, List.foldr_nil, UInt8.toNat_ofNat', Nat.shiftRight_eq_div_pow]
     omega
+
+/-- **obj_copy_move_preserve**: `File::copy` / `File::move` of an object that was opened for WRITE or APPEND and written
+    through (whatever is still in its buffer: `copy` flushes, `move` closes first — repair b3be5cd): the destination holds
+    exactly what the object's file holds, the move also removes the source and leaves the object closed -/
+theorem obj_copy_move_preserve (d : Disk) (p q : Nat) (t : Bool) (m : OpenMode) (hm : m = .write ∨ m = .append)
+    (ops : List QOp) (hq : p ≠ q) (xdev : Bool) :
+    let o1 := (Obj.new p t).open d m
+    let r := ops.foldl runQ (o1.2.1, o1.2.2)
+    let c := (if m = .append then (d p).getD [] else []) ++ (writesOf ops).flatten
+    r.2.copy r.1 q = (true, r.1.set q (some c)) ∧
+    (r.2.move r.1 q xdev).1 = (true, (r.1.set q (some c)).set p none) ∧ (r.2.move r.1 q xdev).2.file = none := by
+  intro o1 r c
+  have key := obj_write_state d p t m hm ops
+  have hpath : r.2.path = p := key.2.1
+  have hopen : r.2.file.isSome = true := key.2.2
+  refine ⟨?_, ?_, ?_⟩
+  · simp only [Obj.copy, hpath]
+    exact copy_preserves r.1 p q c key.1 hq
+  · simp only [Obj.move, hpath]
+    exact move_preserves r.1 p q c xdev key.1 hq
+  · simp [Obj.move, hopen, Obj.close]
+
+/-- **full_device**: a destination that accepts no byte: copying a non-empty file to it is reported as a failure and
+    moving it there leaves the source where it is (repair 78aac25: the copy used to report success and the move then
+    deleted the source); only the empty file can be "moved" there -/
+theorem full_device (d : Disk) (p : Nat) (c : Bytes) (h : d p = some c) :
+    (c ≠ [] → copyToFull d p = (false, d) ∧ moveToFull d p = (false, d)) ∧
+    (c = [] → copyToFull d p = (true, d) ∧ moveToFull d p = (true, d.set p none)) := by
+  constructor
+  · intro hc
+    have : c.isEmpty = false := by cases c <;> simp_all
+    simp [copyToFull, moveToFull, h, this]
+  · intro hc
+    subst hc
+    simp [copyToFull, moveToFull, h, remove]
 
 end C17
